@@ -35,7 +35,7 @@ theorem good_unary_plain (kind : MethodKind) (body : Body) (ctype : CType) (toke
       · cases beh <;> rfl
       · rename_i e; cases e <;> rfl
       · rename_i m; cases m <;> rfl
-      · rfl
+      · rename_i d; cases d <;> rfl
       · cases beh <;> rfl
     · rfl
     · rfl
@@ -52,13 +52,13 @@ theorem good_init_plain (kind : MethodKind) (body : Body) (ctype : CType) (token
       · cases beh <;> rfl
       · rename_i e; cases e <;> rfl
       · rename_i m; cases m <;> rfl
-      · rfl
+      · rename_i d; cases d <;> rfl
       · cases beh <;> rfl
     · cases body
       · cases beh <;> rfl
       · rename_i e; cases e <;> rfl
       · rename_i m; cases m <;> rfl
-      · rfl
+      · rename_i d; cases d <;> rfl
       · cases beh <;> rfl
     · rfl
   · rfl
@@ -79,7 +79,7 @@ theorem good_exchange_plain (kind : MethodKind) (body : Body) (ctype : CType) (t
       · cases token <;> first | rfl | (cases beh <;> rfl)
       · rename_i e; cases e <;> rfl
       · cases token <;> first | rfl | (cases beh <;> rfl)
-      · cases token <;> rfl
+      · rename_i d; cases d <;> cases token <;> rfl
       · cases token <;> rfl
     · rfl
   · rfl
@@ -93,7 +93,7 @@ theorem good_unary_coded (kind : MethodKind) (body : Body) (ctype : CType) (toke
       · cases beh <;> rfl
       · rename_i e; cases e <;> rfl
       · rename_i m; cases m <;> rfl
-      · rfl
+      · rename_i d; cases d <;> rfl
       · cases beh <;> rfl
     · rfl
     · rfl
@@ -110,13 +110,13 @@ theorem good_init_coded (kind : MethodKind) (body : Body) (ctype : CType) (token
       · cases beh <;> rfl
       · rename_i e; cases e <;> rfl
       · rename_i m; cases m <;> rfl
-      · rfl
+      · rename_i d; cases d <;> rfl
       · cases beh <;> rfl
     · cases body
       · cases beh <;> rfl
       · rename_i e; cases e <;> rfl
       · rename_i m; cases m <;> rfl
-      · rfl
+      · rename_i d; cases d <;> rfl
       · cases beh <;> rfl
     · rfl
   · rfl
@@ -137,7 +137,7 @@ theorem good_exchange_coded (kind : MethodKind) (body : Body) (ctype : CType) (t
       · cases token <;> first | rfl | (cases beh <;> rfl)
       · rename_i e; cases e <;> rfl
       · cases token <;> first | rfl | (cases beh <;> rfl)
-      · cases token <;> rfl
+      · rename_i d; cases d <;> cases token <;> rfl
       · cases token <;> rfl
     · rfl
   · rfl
